@@ -688,7 +688,7 @@ func c10Property(t *rapid.T) {
 				// an existing message object (possibly built before) is the destination
 				var others []*c10msg
 				for _, o := range msgs {
-					if o != cm && !o.parsed {
+					if o != cm {
 						others = append(others, o)
 					}
 				}
@@ -704,7 +704,11 @@ func c10Property(t *rapid.T) {
 					delete(removed, k)
 				}
 			}
+			if dst.parsed {
+				feat["copy-into-a-message-that-was-parsed"] = true
+			}
 			cm.q.CopyInto(dst.q)
+			dst.parsed = false // whatever the destination was, it is now a copy of the source's fields
 			for _, it := range cm.m.b {
 				if it.grp != nil && it.grp.hasContent() {
 					feat["copy-with-group"] = true
@@ -792,5 +796,28 @@ func TestReplay_C10_Fixed(t *testing.T) {
 		cm.q.Body.SetString(5000, "0")
 		cm.m.b[5000] = &mItem{val: []byte("0")}
 		verifyBuilt(t, cm, map[string]bool{"group-overwritten-by-scalar": true})
+	})
+}
+
+// TestReplay_C10_CopyIntoParsedFixed: regression for the defect repaired by /repo d60d824 (CopyInto into a
+// message object that had been parsed before kept serialising as the old text).
+func TestReplay_C10_CopyIntoParsedFixed(t *testing.T) {
+	vk.Guard(func() {
+		old := quickfix.NewMessage()
+		old.Header.SetString(8, "FIX.4.4")
+		old.Header.SetString(35, "D")
+		old.Body.SetString(11, "OLD")
+		dst := quickfix.NewMessage()
+		if err := quickfix.ParseMessage(dst, bytes.NewBufferString(old.String())); err != nil {
+			t.Fatalf("harness: %v", err)
+		}
+		src := quickfix.NewMessage()
+		src.Header.SetString(8, "FIX.4.4")
+		src.Header.SetString(35, "8")
+		src.Body.SetString(17, "NEW")
+		src.CopyInto(dst)
+		if dst.String() != src.String() {
+			vk.Violation(t, c10(), "C10/copy/serialises-differently/plain", "source %s\ncopy   %s", vk.Show([]byte(src.String())), vk.Show([]byte(dst.String())))
+		}
 	})
 }
